@@ -256,6 +256,13 @@ class Repo:
                     out.append('function table %s' % t)
             elif isinstance(n, ast.While) and isinstance(n.test, ast.Constant) and n.test.value is True:
                 pass
+        # calls of method values that the class parks in its own attributes (self.x = self._m)
+        if fi.cls is not None:
+            parked = self.parked_method_attrs(fi.cls)
+            for n in ast.walk(fi.node):
+                if isinstance(n, ast.Call) and isinstance(n.func, ast.Attribute) and isinstance(n.func.value, ast.Name) and n.func.value.id == 'self' \
+                        and n.func.attr in parked:
+                    out.append('call of a method value parked in self.%s' % n.func.attr)
         out = sorted(set(out))
         if with_compile and fi.cls is not None and fi.node.name != '_compile':
             comp = self.method(fi.cls, '_compile')
@@ -289,6 +296,24 @@ class Repo:
         scan(self.modules[module]['tree'].body, set())
         self._mro_cache[key] = names
         return names
+
+    def parked_method_attrs(self, ci):
+        """attributes (other than pack / unpack) that some method assigns a method of the class to"""
+        key = ('parked', ci.qual)
+        if key in self._mro_cache:
+            return self._mro_cache[key]
+        out = set()
+        for c in set(self.mro(ci)) | set(self.subclasses(ci.name)):
+            for fi in c.methods.values():
+                for n in ast.walk(fi.node):
+                    if isinstance(n, ast.Assign):
+                        for t in n.targets:
+                            if isinstance(t, ast.Attribute) and isinstance(t.value, ast.Name) and t.value.id == 'self' and t.attr not in ('pack', 'unpack', 'clone') \
+                                    and isinstance(n.value, ast.Attribute) and isinstance(n.value.value, ast.Name) and n.value.value.id == 'self' \
+                                    and self.method(c, n.value.attr) is not None:
+                                out.add(t.attr)
+        self._mro_cache[key] = out
+        return out
 
     def func_by_where(self, file, qual):
         return self.functions.get('%s::%s' % (file, qual))
